@@ -226,7 +226,8 @@ def rule_r3(p, res):
     ver = [stmt_of(k) for k in calls_in(init.node) if isinstance(k.func, ast.Attribute) and k.func.attr == "_verify_all_labels_masked"]
     r.check(bool(st) and bool(ver) and any(g.dominates(s, ver[0]) for s in st), init, init.node, "the coverage check must run after the label masks are stored")
     s = norm(init.node)
-    r.check("not isinstance(labels_to_masks, OrderedDict)" in s, init, init.node, "the constructor must insist on an ordered mapping of labels")
+    from ..astutil import raising_ifs
+    r.check(any((not pol) and norm(t) == "isinstance(labels_to_masks, OrderedDict)" for t, pol, n_ in raising_ifs(init.node)), init, init.node, "the constructor must insist on an ordered mapping of labels")
     r.check("OrderedDict([(l, m.copy()) for l, m in labels_to_masks.items()])" in s, init, init.node, "copied label masks must keep their order")
     va = p.own_method("LabelledPointUndirectedGraph", "_verify_all_labels_masked")
     r.instance(va)
